@@ -129,7 +129,7 @@ def gen_cases(rng, n, tier):
                             again=False))
         else:
             out.append(dict(cfg=cfgs[i % len(cfgs)], prog=gen_history(rng), pick=rng.random(), pick2=rng.random(),
-                            again=(i % 4 == 3), pending_delete=(i % 7 == 2)))
+                            again=(i % 4 == 3), pending_delete=(i % 7 == 2), pending_x=(i % 6 == 1)))
     return out
 
 
@@ -169,8 +169,20 @@ def corpus():
                        ['link', 1, 1], ['link', 2, 1], ['tagto', 1, 1], ['commit'],
                        ['tagto', 1, 2], ['commit']],
                  fixed_target=[0, 1, 'first', ['tags', 'labels.articles.tags']]),
+            # links ADDED since the version (two and three of them, next to each other in the collection) go away
+            dict(cfg=cfg, prog=[['add', 0, 1, {'a': 1}], ['add', 2, 1, {'a': 1}], ['add', 2, 2, {'a': 1}], ['add', 2, 3, {'a': 1}],
+                                ['link', 1, 1], ['commit'], ['link', 1, 2], ['link', 1, 3], ['commit']],
+                 fixed_target=[0, 1, 'first', ['labels']]),
+            dict(cfg=dict(cfg, strategy='subquery'),
+                 prog=[['add', 0, 1, {'a': 1}], ['add', 2, 1, {'a': 1}], ['add', 2, 2, {'a': 1}], ['add', 2, 3, {'a': 1}],
+                       ['add', 2, 4, {'a': 1}], ['commit'], ['link', 1, 1], ['link', 1, 2], ['link', 1, 3], ['link', 1, 4], ['commit'],
+                       ['set', 0, 1, {'a': 2}], ['commit']],
+                 fixed_target=[0, 1, 'first', ['labels']]),
             dict(cfg=cfg, prog=base + [['set', 0, 1, {'a': 2}], ['commit']], fixed_target=[0, 1, 'first', []], again=True),
             dict(cfg=cfg, prog=base + [['set', 0, 1, {'a': 2}], ['commit']], fixed_target=[0, 1, 'first', []], pending_delete=True),
+            dict(cfg=cfg, prog=base + [['set', 0, 1, {'a': 2}], ['commit']], fixed_target=[0, 1, 'first', []], pending_x=True),
+            dict(cfg=dict(cfg, autoflush=True), prog=base + [['set', 0, 1, {'a': 2}], ['commit']], fixed_target=[0, 1, 'first', ['tags']],
+                 pending_x=True),
             dict(cfg=cfg, prog=base + [['tagto', 1, 1], ['commit'], ['set', 0, 1, {'a': 2}], ['commit']],
                  fixed_target=[0, 1, 'first', ['tags']], pending_delete=True),
             dict(cfg=cfg, prog=base + [['del', 0, 1], ['commit']], fixed_target=[0, 1, 'del', []]),
@@ -259,6 +271,13 @@ def _worker(chunk):
                     # the application has marked the entity for deletion (not flushed yet) and then reverts it in the
                     # same transaction: the revert wins, the entity is there afterwards
                     rv = [['del', tgt[0], tgt[1]]] + rv
+                px = None
+                if case.get('pending_x') and tgt[0] == 0 and not case.get('pending_delete') and any(
+                        r['cls'] == 0 and r['vals'][0] == tgt[1] for r in r1['snaps'][-1]['live']):
+                    # the application has assigned the EXCLUDED column and not flushed yet when it reverts the entity:
+                    # the revert must not touch that column - the assignment is what the commit writes
+                    px = 77
+                    rv = [['set', 0, tgt[1], {'x': px}]] + rv
                 base = case['prog']
                 if case.get('again'):
                     # revert, change the entity again, revert to the SAME version a second time (same session):
@@ -274,8 +293,14 @@ def _worker(chunk):
                 prog2 = base + rv
                 r2 = hist.run_program(env, cfg, prog2)
                 nb = len(r1['snaps'])
-                out.append((idx, dict(skipped=False, target=tgt, run=r2, before=r2['snaps'][nb - 1] if len(r2['snaps']) >= nb else None,
-                                      exc=r2['exc'])))
+                before = r2['snaps'][nb - 1] if len(r2['snaps']) >= nb else None
+                if px is not None and before is not None:
+                    # "untouched" refers to the state the application had given the column when it called revert
+                    before = json.loads(json.dumps(before))
+                    for r in before['live']:
+                        if r['cls'] == 0 and r['vals'][0] == tgt[1]:
+                            r['vals'][3] = px
+                out.append((idx, dict(skipped=False, target=tgt, run=r2, before=before, exc=r2['exc'])))
             except Exception as e:
                 import traceback
                 out.append((idx, dict(skipped=False, exc='%s: %s %s' % (type(e).__name__, e, traceback.format_exc()[-500:]))))
